@@ -1,0 +1,102 @@
+// Thin public wrappers around the crate-private page allocator types, for the external
+// verification harness. Compiled only with --cfg redb_verif; nothing in redb uses them.
+
+use crate::tree_store::page_store::buddy_allocator::BuddyAllocator;
+use crate::tree_store::page_store::region::RegionTracker;
+use alloc::vec::Vec;
+
+pub struct VerifBuddyAllocator(BuddyAllocator);
+
+impl VerifBuddyAllocator {
+    pub fn new(num_pages: u32, max_page_capacity: u32) -> Self {
+        Self(BuddyAllocator::new(num_pages, max_page_capacity))
+    }
+
+    pub fn alloc(&mut self, order: u8) -> Option<u32> {
+        self.0.alloc(order)
+    }
+
+    pub fn alloc_lowest(&mut self, order: u8) -> Option<u32> {
+        self.0.alloc_lowest(order)
+    }
+
+    pub fn free(&mut self, page_number: u32, order: u8) -> u8 {
+        self.0.free(page_number, order)
+    }
+
+    pub fn record_alloc(&mut self, page_number: u32, order: u8) -> bool {
+        self.0.record_alloc(page_number, order)
+    }
+
+    pub fn resize(&mut self, new_size: u32) {
+        self.0.resize(new_size);
+    }
+
+    pub fn to_vec(&self) -> Vec<u8> {
+        self.0.to_vec()
+    }
+
+    pub fn from_bytes(data: &[u8]) -> Self {
+        Self(BuddyAllocator::from_bytes(data))
+    }
+
+    pub fn len(&self) -> u32 {
+        self.0.len()
+    }
+
+    pub fn max_order(&self) -> u8 {
+        self.0.get_max_order()
+    }
+
+    pub fn count_free_pages(&self) -> u32 {
+        self.0.count_free_pages()
+    }
+
+    pub fn count_allocated_pages(&self) -> u32 {
+        self.0.count_allocated_pages()
+    }
+
+    pub fn highest_free_order(&self) -> Option<u8> {
+        self.0.highest_free_order()
+    }
+
+    pub fn trailing_free_pages(&self) -> u32 {
+        self.0.trailing_free_pages()
+    }
+
+    pub fn free_bits(&self, order: u8) -> Vec<bool> {
+        self.0.verif_free_bits(order)
+    }
+
+    pub fn page_is_free(&self, page: u32) -> bool {
+        self.0.verif_page_is_free(page)
+    }
+
+    pub fn xxh3_hash(&self) -> u128 {
+        self.0.xxh3_hash()
+    }
+}
+
+pub struct VerifRegionTracker(RegionTracker);
+
+impl VerifRegionTracker {
+    pub fn new(regions: u32, orders: u8) -> Self {
+        Self(RegionTracker::new(regions, orders))
+    }
+
+    pub fn find_free(&self, order: u8) -> Option<u32> {
+        self.0.find_free(order)
+    }
+
+    pub fn mark_free(&mut self, order: u8, region: u32) {
+        self.0.mark_free(order, region);
+    }
+
+    pub fn mark_full(&mut self, order: u8, region: u32) {
+        self.0.mark_full(order, region);
+    }
+
+    pub fn full_bits(&self, order: u8) -> Vec<bool> {
+        self.0.verif_full_bits(order)
+    }
+}
